@@ -124,6 +124,44 @@ def run(res, replay=None):
                                "observed": g, "expected": exp, "config": [cxx, std]})
     res.sample({"case": "flat group u16*u16 numInGroup=65535 blockLength=65535", "expected": str(4 + 65535 * 65535)})
 
+    # ---- (c) flat message / flat entry size with every blockLength header type up to the type maximum ----
+    # one schema per header type (headerType is per schema)
+    for bt in ("u8", "u16", "u32", "u64"):
+        one = Schema("hs_flatbl_" + bt, big_endian=False, sid=8)
+        one.header = "messageHeader"
+        one.add(TypeDef("messageHeader", "composite", members=[TypeDef("blockLength", "type", prim=ITY_PRIM[bt])] + [
+            TypeDef(n, "type", prim="uint16") for n in ("templateId", "schemaId", "version")]))
+        mm = Message("F", 1)
+        mm.fields.append(Field("x", 1, "uint8"))
+        one.messages.append(mm)
+        pc = prepare_fixed(one, cfgs[:2])
+        if pc.error:
+            res.violation("driver-build:flatbl", "flat blockLength probe: " + pc.error[1][-300:], {"no_failing_input": True, "correspondence": "T1 probe"})
+            continue
+        w = {"u8": 1, "u16": 2, "u32": 4, "u64": 8}[bt]
+        hsz = w + 6
+        vals = sorted(v for v in {1, 2, 255, TMAX[bt], TMAX[bt] - 1, TMAX[bt] - hsz, TMAX[bt] - hsz + 1, (TMAX[bt] + 1) // 2} if 0 <= v < 2 ** 64 - hsz)
+        ml, il = [], []
+        for bl in vals:
+            buf = bl.to_bytes(w, "little") + bytes(6) + bytes(2)
+            ml += [model_msg_line(one, mm), "buf " + hx(buf), "size"]
+            il += ["use F", "buf " + hx(buf), "size"]
+        mo = model.run(ml)
+        for (cxx, std), exe in pc.exes.items():
+            rc, io, err = run_lines(exe, il)
+            for i, bl in enumerate(vals):
+                res.count(("flatbl", bt, bl, cxx, std), bl >= 2 ** 15)
+                exp = str(hsz + bl)
+                if mo[3 * i + 2] != exp:
+                    found = True
+                    res.violation("model-flat-size", "model flat message size %s != %s" % (mo[3 * i + 2], exp), {"bl": bl})
+                elif io[3 * i + 2] != exp:
+                    found = True
+                    res.violation("flat-message-size:%s" % bt,
+                                  "size_bytes of a flat message with a %s blockLength of %d: got %s, true size %s (%s -std=%s)"
+                                  % (ITY_PRIM[bt], bl, io[3 * i + 2], exp, cxx, std),
+                                  {"schema_xml": pc.xml, "blockLength": bl, "observed": io[3 * i + 2], "expected": exp})
+
     # ---- (a) images ----------------------------------------------------
     nschemas = 5 if res.tier == "quick" else 30
     nimgs = 6 if res.tier == "quick" else 20
